@@ -323,4 +323,56 @@ theorem incdec_spec (x : XF.X3) (hx : canon3 x) (i : Nat) (hi : i < 3) (t : Fp) 
     · rw [ev_mk, ev_mk, hw]; ring
     · rw [ev_mk, ev_mk, hv]; ring
 
+
+/-- with a bound the loop always ends: some iteration `N ≤ max m 2 - 2` is the first at which the exit test holds -/
+theorem x_first_stop (g : XF.X3) (m : Nat) :
+    ∃ N, N + 2 ≤ max m 2 ∧ stopG XF.mulAssign XF.isOne g (some m) N = true ∧
+      ∀ j, j < N → stopG XF.mulAssign XF.isOne g (some m) j = false := by
+  have hex : ∃ n, stopG XF.mulAssign XF.isOne g (some m) n = true := by
+    refine ⟨max m 2 - 2, ?_⟩
+    unfold stopG
+    rw [Bool.or_eq_true]; right
+    simp only [decide_eq_true_eq]; omega
+  refine ⟨Nat.find hex, ?_, Nat.find_spec hex, fun j hj => ?_⟩
+  · have : Nat.find hex ≤ max m 2 - 2 := Nat.find_min' hex (by
+      unfold stopG
+      rw [Bool.or_eq_true]; right
+      simp only [decide_eq_true_eq]; omega)
+    omega
+  · have := Nat.find_min hex hj
+    simpa using this
+
+theorem x_cyclicGroup_some (g : XF.X3) (hg : canon3 g) (m fuel : Nat) (hf : max m 2 ≤ fuel + 1) :
+    ∃ l, XF.cyclicGroup fuel g (some m) = some l ∧ (∀ x ∈ l, canon3 x) ∧ 2 ≤ l.length ∧ l.length ≤ max m 2 ∧
+      l.map XF.toVal = (List.range l.length).map (xnpow (XF.toVal g)) := by
+  obtain ⟨N, hN, hs, hb⟩ := x_first_stop g m
+  obtain ⟨l, h1, h2, h3⟩ := x_cyclicGroup_core g hg (some m) N fuel (by omega) hs hb
+  have hlen : l.length = N + 2 := by
+    have := congrArg List.length h3
+    simpa using this
+  exact ⟨l, h1, h2, by omega, by omega, by rw [hlen]; exact h3⟩
+
+/-! ### `batch_inversion` on the extension field: the panicking inputs -/
+
+theorem batchPrefixG_zero (mul : XF.X3 → XF.X3 → XF.X3) : ∀ (l : List XF.X3) (acc : XF.X3), XF.zero ∈ l →
+    batchPrefixG mul XF.isZero l acc = none
+  | [], _, h => by simp at h
+  | y :: ys, acc, hm => by
+    unfold batchPrefixG
+    by_cases hy : XF.isZero y = true
+    · simp [hy]
+    · have : XF.zero ∈ ys := by
+        rcases List.mem_cons.1 hm with h | h
+        · exact absurd ((x_is_zero_iff y).2 h.symm) hy
+        · exact h
+      simp [hy, batchPrefixG_zero mul ys _ this]
+
+theorem x_batchInversion_zero (xs : List XF.X3) (h : XF.zero ∈ xs) : XF.batchInversion xs = none := by
+  cases xs with
+  | nil => simp at h
+  | cons x xs => unfold XF.batchInversion batchInversionG; simp [batchPrefixG_zero _ _ _ h]
+
+theorem x_batchInversion_nil : XF.batchInversion [] = some [] := rfl
+
+
 end TF.XFp
